@@ -165,6 +165,11 @@ def compare(model, roles_, code_fn, ref_fn, rep, rule, construct, where, what, f
         if isinstance(x, Sym):
             if isinstance(x.key, tuple) and x.key and x.key[0] in ("comp", "lambda"):
                 return x.key[0]
+            if isinstance(x.key, tuple) and len(x.key) >= 2 and x.key[0] == "call" and isinstance(x.key[1], str) and \
+                    (x.key[1] in ("dict.fromkeys", "map", "filter", "zip", "sorted", "reversed", "enumerate") or x.key[1].split(".")[0] in ("itertools", "functools", "operator")):
+                return "call:" + x.key[1]
+            if isinstance(x.key, tuple) and len(x.key) >= 3 and x.key[0] == "mcall" and x.key[2] in ("fromkeys",):
+                return "call:" + str(x.key[2])
             return unread(x.key)
         if isinstance(x, (tuple, list)):
             for y in x:
@@ -175,9 +180,9 @@ def compare(model, roles_, code_fn, ref_fn, rep, rule, construct, where, what, f
             return unread(x.items)
         return None
     for lf, _, sig in cs:
-        u = unread(sig)
+        u = unread(sig) or unread([e[1] for e in lf.events if e[0] == "loop"])
         if u:
-            raise AnalysisError("%s: the code contains a %s the summary engine does not read" % (what, {"comp": "comprehension", "lambda": "lambda"}[u]))
+            raise AnalysisError("%s: the code contains a %s the summary engine does not read" % (what, {"comp": "comprehension", "lambda": "lambda"}.get(u, u)))
 
     def together(a, b):
         la, ra = a
